@@ -849,6 +849,11 @@ func (x *Exec) coerceLeaf(raw Value, size int, kind leafKind) Value {
 			if r.Obj != nil && r.Obj.TypeOf != nil && r.Off.IsConst() && r.Off.Val == 0 {
 				return ifaceTypeWord{r.Obj.TypeOf}
 			}
+			if r.Obj != nil {
+				// a hand-built itab (non-empty interface assembled through rt.GoIface): the value is a
+				// non-nil interface of an opaque dynamic type; calling a method on it is not encodable
+				return ifaceTypeWord{types.Typ[types.UnsafePointer]}
+			}
 		}
 	case lkIfaceD:
 		switch r := raw.(type) {
